@@ -29,7 +29,7 @@ NestA == (t1 :> 3)
 NestB == (t1 :> 1) @@ (t2 :> 1)
 NestC == (t1 :> 2) @@ (t2 :> 1) @@ (t3 :> 1)
 NestS == (t1 :> 3) @@ (t2 :> 3) @@ (t3 :> 3)
-NestTA == (t1 :> 3)
+NestTA == (t1 :> 4)
 NestTB == (t1 :> 2) @@ (t2 :> 1)
 NestTC == (t1 :> 2) @@ (t2 :> 2) @@ (t3 :> 1)
 =============================================================================
